@@ -229,7 +229,9 @@ pub fn project(p: DVec3, dim: usize) -> DVec3 {
 
 pub const ASPECTS: [[f64; 3]; 4] = [[1., 1., 1.], [1., 0.37, 2.9], [30., 4.6, 0.29], [1., 100., 0.01]];
 pub const SCALES: [f64; 7] = [1., 1., 1e-3, 1e3, 7.3e5, 2.5e9, 1e-9];
-pub const OFFSETS: [[f64; 3]; 5] = [[0., 0., 0.], [-0.5, -0.5, -0.5], [3.3, -7.1, 11.9], [1e3, -1e3, 1e2], [1e5, 1e5, -1e5]];
+/// anchors in units of the widths. Entries 3 and 4: boxes that straddle the origin asymmetrically (coordinates of both signs,
+/// the negative part short or long), which the symmetric [-0.5] box and the one-signed ones never produce.
+pub const OFFSETS: [[f64; 3]; 7] = [[0., 0., 0.], [-0.5, -0.5, -0.5], [3.3, -7.1, 11.9], [-0.1, -0.9, -0.3], [-0.27, -0.02, -0.6], [1e3, -1e3, 1e2], [1e5, 1e5, -1e5]];
 
 #[derive(Clone, Copy, Debug)]
 pub struct BoxShape {
@@ -240,6 +242,20 @@ pub struct BoxShape {
 /// exploration aid: VERIF_BOXSCALE=<x> forces the overall scale of every generated box
 fn forced_scale() -> Option<f64> {
     std::env::var("VERIF_BOXSCALE").ok().and_then(|s| s.parse().ok())
+}
+
+/// The box generator of the first sessions (five anchors): the fixed hostile corpus and its committed baseline are defined
+/// through it and must not change when `OFFSETS` grows.
+pub fn random_box_v1(r: &mut Rng) -> BoxShape {
+    const OFFSETS_V1: [[f64; 3]; 5] = [[0., 0., 0.], [-0.5, -0.5, -0.5], [3.3, -7.1, 11.9], [1e3, -1e3, 1e2], [1e5, 1e5, -1e5]];
+    let asp = DVec3::from_array(*r.pick(&ASPECTS));
+    let scale = forced_scale().unwrap_or(*r.pick(&SCALES));
+    let width = asp * scale;
+    let off = DVec3::from_array(*r.pick(&OFFSETS_V1));
+    BoxShape {
+        anchor: off * width,
+        width,
+    }
 }
 
 pub fn random_box(r: &mut Rng) -> BoxShape {
@@ -259,7 +275,7 @@ pub fn mild_box(r: &mut Rng) -> BoxShape {
     let asp = DVec3::from_array(*r.pick(&ASPECTS[..3]));
     let scale = forced_scale().unwrap_or(*r.pick(&SCALES));
     let width = asp * scale;
-    let off = DVec3::from_array(*r.pick(&OFFSETS[..3]));
+    let off = DVec3::from_array(*r.pick(&OFFSETS[..5]));
     BoxShape {
         anchor: off * width,
         width,
@@ -638,7 +654,45 @@ pub fn gen_case(label: &str, tier: &str, seed: u64, k: u64, o: &GenOpts) -> Case
         b.width = b.width / b.width.max_element() * f;
         b.anchor = rel * b.width;
     }
-    finish(family, unit, b, dim, periodic, format!("{label}/{tier}/seed{seed}/case{k}"))
+    let mut c = finish(family, unit, b, dim, periodic, format!("{label}/{tier}/seed{seed}/case{k}"));
+    periodic_wall_generators(&mut c, label, tier, seed, k);
+    c
+}
+
+/// Periodic inputs with generators EXACTLY on the faces / edges / corners of the primary box, the upper ones (coordinate ==
+/// anchor + width, what `rem_euclid` or `x - floor(x)` style wrapping returns for a tiny negative coordinate) in two cases of
+/// three: one periodic case in six of the unstructured families gets 1-3 such generators. In a periodic box the primary walls
+/// are not special for the algorithm (the initial cell is the tripled box), so these inputs belong to the conditioned domain
+/// (survey on the unchanged tree: DESIGN 8.8). Drawn from a stream of its own: the other cases are those of the earlier sessions.
+pub fn periodic_wall_generators(c: &mut Case, label: &str, tier: &str, seed: u64, k: u64) {
+    if !c.periodic || c.pts.is_empty() {
+        return;
+    }
+    if !matches!(c.family.as_str(), "uniform" | "tiny" | "mildcluster" | "gradient" | "star" | "rows" | "anisotropic") {
+        return;
+    }
+    let mut r = Rng::stream(&format!("{label}onwall"), &[crate::rng::mix(tier, &[]), seed, k]);
+    if std::env::var("VERIF_ONWALL").is_err() && r.below(6) != 0 {
+        return;
+    }
+    let m = 1 + r.below(3);
+    for _ in 0..m {
+        let i = r.below(c.pts.len());
+        let mut any = false;
+        for ax in 0..c.dim {
+            if r.below(2) == 0 {
+                continue;
+            }
+            any = true;
+            c.pts[i][ax] = if r.below(3) == 0 { c.anchor[ax] } else { c.anchor[ax] + c.width[ax] };
+        }
+        if !any {
+            let ax = r.below(c.dim);
+            c.pts[i][ax] = c.anchor[ax] + c.width[ax];
+        }
+    }
+    c.dedup();
+    c.origin.push_str("/onwall");
 }
 
 
@@ -957,7 +1011,7 @@ pub enum BoxKind {
 #[allow(clippy::too_many_arguments)]
 pub fn gen_family_case_in(label: &str, family: &str, seed: u64, k: u64, dim: usize, periodic: bool, n: usize, kind: BoxKind) -> Case {
     let mut r = Rng::stream(label, &[crate::rng::mix(family, &[]), seed, k, dim as u64, periodic as u64, n as u64, kind as u64]);
-    let mut b = random_box(&mut r);
+    let mut b = random_box_v1(&mut r);
     match kind {
         BoxKind::Random => {}
         BoxKind::FarOffset => {
